@@ -385,6 +385,40 @@ def rule_cb_nolock(ctx, rep):
         pat.require(n >= 1, "%s: callback invocation site not found" % fl)
 
 
+# who may write the helper-selection state (by the function in whose source text the store is written); one reason each
+SELECTION_WRITERS = {
+    "thread_call_rcu_data": {"call_rcu_thread": "a helper marks itself as its own helper", "%s_set_thread_call_rcu_data": "the documented setter",
+                             "%s_call_rcu_after_fork_child": "child drops inherited pointers"},
+    "default_call_rcu_data": {"call_rcu_data_init": "first creation under call_rcu_mutex (via get_default_call_rcu_data)", "urcu_call_rcu_exit": "library destructor",
+                              "%s_call_rcu_after_fork_child": "child re-creates the default helper", "%s_get_default_call_rcu_data": "first creation"},
+    "per_cpu_call_rcu_data": {"alloc_cpu_call_rcu_data": "array allocation under call_rcu_mutex", "%s_call_rcu_after_fork_child": "child drops the array",
+                              "%s_set_cpu_call_rcu_data": "documented setter", "%s_free_all_cpu_call_rcu_data": "teardown"},
+}
+
+
+def rule_who(ctx, rep):
+    """T8: the state that decides which helper a call_rcu() caller enqueues to (per-thread pointer, per-CPU array pointer,
+    default helper) is written only by its documented setters, helper creation and the fork/exit handlers.  In particular the
+    lookup done on every call_rcu() (get_call_rcu_data) is read-only: a helper pointer cached anywhere the teardown functions
+    (free_all_cpu_call_rcu_data, call_rcu_data_free) do not clear outlives the helper it points to."""
+    for fl in ALL:
+        F = FL[fl]
+        m = ctx.mod(F.lib, "flat")
+        for g, table in SELECTION_WRITERS.items():
+            allowed = set(k % F.pfx if "%s" in k else k for k in table)
+            found = {}
+            for f in m.defined():
+                for i in f.all_insts():
+                    if i.op in ("store", "rmw", "cmpxchg") and pat.base_global(i.d["ap"]) == g and not ir.ap_fields(i.d["ap"]):
+                        found.setdefault(i.origin_fn, []).append(i)
+                        rep.touch(f)
+            pat.require(found, "%s: no writer of %s found" % (fl, g))
+            extra = sorted(set(found) - allowed)
+            rep.check(not extra, "C03.who", "%s.%s" % (fl, g), "%s written only by %s" % (g, sorted(found)),
+                      "%s is also written in %s: helper-selection state modified outside its setters (a pointer cached here is not cleared when the helper is freed)" % (g, extra),
+                      [found[x][0].where() for x in extra][:3])
+
+
 RULES = [
     ("C03.flags", rule_flags),
     ("C03.gp", rule_gp),
@@ -395,5 +429,6 @@ RULES = [
     ("C03.freeall", rule_freeall),
     ("C03.list", rule_list),
     ("C03.cb-nolock", rule_cb_nolock),
+    ("C03.who", rule_who),
 ]
 FLOORS = {}
